@@ -20,6 +20,8 @@ func init() {
 			"NOT decided: late replies after a timeout, echo interleaving beyond the keep-the-rest rule, loss under arbitrary read segmentation (histories over run-time data and regular expressions).",
 		Assumptions: []string{"RPC methods of one driver are not called concurrently (the property does not quantify over concurrent callers)", "the message-id regular expression extracts the id of the message it is applied to"},
 		Mutants: []Mutant{
+			{ID: "C08-subscription-result-unguarded", Desc: "reverse of the fix: the subscription result's sub-match is indexed without a test", Rule: "C08/submatch-guarded",
+				Edits: []Edit{{File: "driver/netconf/subscription.go", Old: "\tif len(subscriptionResult) != idOrSubMatchLen {\n\t\treturn nil, fmt.Errorf(\n\t\t\t\"%w: subscription failed: no subscription result in reply\",\n\t\t\tutil.ErrNetconfError,\n\t\t)\n\t}\n", New: ""}}},
 			{ID: "C08-poll-previous-id", Desc: "sendRPC polls for the previous message id", Rule: "C08/own-id",
 				Edits: []Edit{{File: "driver/netconf/rpc.go", Old: "data = d.getMessage(m.MessageID)", New: "data = d.getMessage(d.messageID - 1)"}}},
 			{ID: "C08-id-reused", Desc: "buildPayload no longer increments the counter for filters", Rule: "C08/id-allocation",
@@ -59,6 +61,8 @@ func runC08(c *Ctx, r *Report) {
 	checkOperationConstructed(c, r, "C08/operation-constructed")
 	importFoundation(c, r, "C08", "read-loop")
 	importFoundation(c, r, "C08", "read-returns-dequeued")
+	r.Rule("C08/submatch-guarded", "in the NETCONF driver every index into a FindSubmatch result is dominated by a test that the pattern matched (a reply without the expected element yields an error, never a panic)", 2)
+	checkSubmatchGuarded(c, r, "C08/submatch-guarded", []string{"driver/netconf"})
 	importFoundation(c, r, "C08", "netconf-framing")
 	importFoundation(c, r, "C08", "netconf-version")
 	r.Rule("C08/id-allocation", "the message-id counter is written only by the constructor (101) and by buildPayload (copy, then +1); every RPC entry point builds exactly one message per call", 8)
